@@ -20,6 +20,10 @@ execution of the statement tree that emits a Lean decision tree:
     the loop head in declaration order; `for(int i = 0; i < 4; ++i)` is unrolled;
   * `break` / `continue` / `goto` / `return` / fall-through are continuations; a label that is the first
     statement of a `for(;;)` body is the loop head, any other label may only be jumped to forwards;
+  * a call of another member function of Json::Private is executed in place (reference parameters renamed to the
+    caller's variables, `return e` continues the caller); `for(bool flag = true; flag;)` is treated like `for(;;)`:
+    the flag must be a constant at the end of every iteration, `flag = false` leaves the loop (so moving a block
+    into a helper function or replacing `goto` by a flag gives the SAME generated text);
   * `switch` = one `if` per case group over the scrutinee read once; conditions `&&`, `||`, `!` short-circuit;
   * known library calls: `String::findOneOf` (the model's `findOneOf` = strpbrk), `String::isDigit/isHexDigit/
     isSpace`, `x.append(c)`, `x.clear()`, `k.scanf("%x", &w)` (ASSUMED to succeed with `scanHex k`: the
@@ -462,11 +466,11 @@ def paren(lines):
 
 # --------------------------------------------------------------------------------------- symbolic execution
 class Ctx:
-    def __init__(self, brk=None, cont=None, labels=None, depth=0):
-        self.brk, self.cont, self.labels, self.depth = brk, cont, dict(labels or {}), depth
+    def __init__(self, brk=None, cont=None, labels=None, depth=0, ret=None):
+        self.brk, self.cont, self.labels, self.depth, self.ret = brk, cont, dict(labels or {}), depth, ret
 
     def with_(self, **kw):
-        c = Ctx(self.brk, self.cont, self.labels, self.depth)
+        c = Ctx(self.brk, self.cont, self.labels, self.depth, self.ret)
         for k, v in kw.items():
             setattr(c, k, v)
         return c
@@ -505,6 +509,16 @@ def referenced_names(node, acc):
     return acc
 
 
+def rename_ids(node, ren):
+    if isinstance(node, tuple):
+        if len(node) == 2 and node[0] == "id" and node[1] in ren:
+            return ("id", ren[node[1]])
+        return tuple(rename_ids(x, ren) for x in node)
+    if isinstance(node, list):
+        return [rename_ids(x, ren) for x in node]
+    return node
+
+
 def lvalue_name(e):
     if e[0] == "id":
         return e[1]
@@ -537,6 +551,8 @@ class Snippet:
         self.nlocal = 0
         self.expanding = set()
         self.assumed = set()
+        self.functions = {}      # other member functions of Json::Private that may be inlined: name -> (params, body)
+        self.inlining = set()
 
     def fresh(self, p="c"):
         self.nvar += 1
@@ -804,6 +820,8 @@ class Snippet:
                 env2 = dict(env)
                 env2["$err"] = (("err", self.lean_of(line), self.lean_of(p)), -1, 0)
                 return k(("void",), env2)
+            if name in self.functions:
+                return self.inline(name, args, env, ctx, k)
             raise Refuse(f"{self.prefix}: call of `{name}`")
         if fn[0] == "member":
             obj, meth = self.var_name(fn[1]), fn[2]
@@ -841,6 +859,38 @@ class Snippet:
                 return k(("opaque",), env)
             raise Refuse(f"{self.prefix}: call of `{obj}.{meth}`")
         raise Refuse(f"{self.prefix}: call form")
+
+    def inline(self, name, args, env, ctx, k):
+        """a call of another member function of Json::Private: its body is executed in place.  Reference parameters are
+        renamed to the caller's variables (the argument must be a plain variable), `return e` continues the caller with e."""
+        params, body = self.functions[name]
+        if name in self.inlining:
+            raise Refuse(f"{self.prefix}: recursive call of `{name}`")
+        if len(params) != len(args):
+            raise Refuse(f"{self.prefix}: call of `{name}` with {len(args)} arguments")
+        ren = {}
+        for (pname, byref), a in zip(params, args):
+            an = self.var_name(a)
+            if not byref or an is None or "." in an:
+                raise Refuse(f"{self.prefix}: `{name}` takes something else than plain variables by reference")
+            ren[pname] = an
+        clash = (mutated_names(body, set()) - set(ren)) & {n for n in env if not n.startswith("$")}
+        clash -= {"pos.pos", "pos.line", "token.value", "token.token", None}
+        if clash:
+            raise Refuse(f"{self.prefix}: locals of `{name}` shadow variables of the caller: {sorted(clash)}")
+        body = rename_ids(body, ren)
+        self.inlining.add(name)
+        try:
+            def leave(v, env2):                  # the caller goes on: the callee is no longer active
+                self.inlining.discard(name)
+                try:
+                    return k(v, self.scoped(env, env2))
+                finally:
+                    self.inlining.add(name)
+            inner = Ctx(labels={}, depth=ctx.depth, ret=leave)
+            return self.exec_list(body, 0, env, inner, lambda env2: leave(("void",), env2))
+        finally:
+            self.inlining.discard(name)
 
     # ---- conditions --------------------------------------------------------------------------------------
     def cond(self, e, env, ctx, kt, kf):
@@ -909,7 +959,7 @@ class Snippet:
 
     def scoped(self, env_before, env_after):
         """leave a block: variables declared inside disappear"""
-        return {n: v for n, v in env_after.items() if n in env_before}
+        return {n: v for n, v in env_after.items() if n in env_before or n == "$err"}
 
     def exec(self, s, env, ctx, k):
         t = s[0]
@@ -977,6 +1027,10 @@ class Snippet:
                 raise Refuse(f"{self.prefix}: goto to the unknown label `{s[1]}`")
             return ctx.labels[s[1]][1](env)
         if t == "return":
+            if ctx.ret is not None:                      # inside an inlined member function
+                if s[1] is None:
+                    return ctx.ret(("void",), env)
+                return self.ev(s[1], env, ctx, ctx.ret)
             if s[1] is None:
                 return ("leaf", self.on_return(("void",), env, self))
             return self.ev(s[1], env, ctx, lambda v, env2: ("leaf", self.on_return(v, env2, self)))
@@ -1048,6 +1102,11 @@ class Snippet:
                 return self.ev(cond, env2, ctx, static)
             return iteration(env0, 0)
         # ---- general loop: one Lean function with fuel
+        flag = None
+        if init is not None and init[0] == "decl" and len(init[1]) == 1 and init[1][0][1] == "bool" and step is None \
+                and cond == ("id", init[1][0][0]) and init[1][0][2] == ("=", ("id", "true")):
+            flag = init[1][0][0]             # while the flag is true the loop goes on: treated like `for(;;)` + exit
+
         def run_init(k2):
             if init is None:
                 return k2(env)
@@ -1060,7 +1119,7 @@ class Snippet:
                 if "pos" in used:
                     used |= {"pos.pos", "pos.line"}
                 visible = sorted(((order, n) for n, (v, order, depth) in env1.items()
-                                  if n in used and v[0] in ("ptr", "bytes", "nat", "bool", "cbool", "out", "int", "uninit") and not n.startswith("$") and n != "token.value"))
+                                  if n in used and n != flag and v[0] in ("ptr", "bytes", "nat", "bool", "cbool", "out", "int", "uninit") and not n.startswith("$") and n != "token.value"))
                 last = [n for o, n in visible if n == self.last]
                 names = [n for o, n in visible if n != self.last] + last
                 name = f"{self.prefix}L{len(self.loops)}"
@@ -1092,6 +1151,12 @@ class Snippet:
                 self.defs.append(None)
 
                 def jump(env2):
+                    if flag is not None:
+                        fv = self.lookup(env2, flag)[0]
+                        if fv[0] != "cbool":
+                            raise Refuse(f"{self.prefix}: the loop flag `{flag}` is not a constant at the end of an iteration")
+                        if not fv[1]:
+                            return k(self.scoped(env, env2))        # the condition fails: the loop is left
                     args = []
                     for n, lean, ty in params:
                         args.append(self.lean_of(self.lookup(env2, n)[0]))
@@ -1110,7 +1175,11 @@ class Snippet:
                         j += 1
                 inner = inner0.with_(labels=labels)
                 run_body = lambda env2: self.exec(b, env2, inner, lambda env3: stepf(env3))
-                node = run_body(env_in) if cond is None else self.cond(cond, env_in, inner, run_body, after)
+                if flag is not None:
+                    env_in[flag] = (("cbool", True), 99999, ctx.depth)
+                    node = run_body(env_in)
+                else:
+                    node = run_body(env_in) if cond is None else self.cond(cond, env_in, inner, run_body, after)
                 self.defs[slot] = (name, params, node)
             name, params = self.loops[key]
             args = [self.lean_of(self.lookup(env1, n)[0]) for n, lean, ty in params]
@@ -1223,11 +1292,38 @@ def translate(cpp_text):
     parts.append(sn.run(body, "strip", "`Json::stripComments(data)`: `buf` = the memory of `data`"))
     assumed |= sn.assumed
 
+    # member functions of Json::Private that the translated blocks may call (inlined at the call site)
+    functions = {}
+    for m in re.finditer(r"\b(?:bool|void)\s+Json::Private::(\w+)\s*\(([^)]*)\)\s*\{", src):
+        fname = m.group(1)
+        if fname in ("readToken", "skipSpace", "syntaxError", "parse", "parseObject", "parseArray", "parseValue"):
+            continue
+        params = []
+        ok = True
+        for part in [x.strip() for x in m.group(2).split(",") if x.strip()]:
+            pm = re.fullmatch(r"(?:const\s+)?(\w+)\s*(&?)\s*(\w+)", part)
+            if not pm:
+                ok = False
+                break
+            params.append((pm.group(3), pm.group(2) == "&"))
+        if not ok:
+            continue
+        end = balanced(src, m.end() - 1)
+        try:
+            ps = Parser(tokenize(src[m.end():end - 1]), "Json::Private::" + fname)
+            body = []
+            while ps.peek()[0] != "eof":
+                body.append(ps.stmt())
+        except Refuse:
+            continue                      # outside the subset: a call of it will be refused
+        functions[fname] = (params, body)
+
     # 2./3. readToken: the string block and the number block
     rt = function_body(src, r"bool\s+Json::Private::readToken\s*\(\s*\)", "Json::Private::readToken")
     tokext = [("pos.line", "nat", "line"), ("pos.pos", "ptr", "r")]
     sblock = find_switch_group(rt, 34, "readToken")
     sn = Snippet("str", "Res (Nat × List Byte × List Byte)", "Cxx.rdR", "Cxx.findR", tokext, "pos.pos", ret_tok("str"))
+    sn.functions = functions
     text = sn.run(sblock, "strTok", "`readToken`, the statements of `case '\"':` (cursor `r` AT the opening quote)")
     parts.append(text)
     assumed |= sn.assumed
@@ -1238,6 +1334,7 @@ def translate(cpp_text):
     if len(ifs) != 1 or any(not (s[0] == "expr" and s[1][0] == "assign" and lvalue_name(s[1][2]) == "token.token") for s in pre):
         raise Refuse("readToken: the default group is not `token.token = ..; if(..) {number} return error`")
     sn = Snippet("num", "Res (Val × List Byte)", "Cxx.rdR", "Cxx.findR", [("pos.pos", "ptr", "r")], "pos.pos", ret_tok("num"))
+    sn.functions = functions
     parts.append(sn.run([ifs[0][2]], "numTok", "`readToken`, the number block (the body of `if(*pos.pos == '-' || isDigit(*pos.pos))`)"))
     assumed |= sn.assumed
 
